@@ -595,6 +595,9 @@ class PrefVer(VerificationStrategy):
     def random_sample_object_of_size(self, c, n, **parameters):
         return _random.choice(sorted(c.objects_of_size(n, **parameters)))
 
+    def get_genf(self, c, funcs=None):
+        raise NotImplementedError("no closed form is offered for this class")
+
     def get_objects(self, c, n):
         return true_objects(c, n)
 
@@ -637,6 +640,9 @@ class Known(VerificationStrategy):
 
     def random_sample_object_of_size(self, c, n, **parameters):
         return _random.choice(sorted(c.objects_of_size(n, **parameters)))
+
+    def get_genf(self, c, funcs=None):
+        raise NotImplementedError("no closed form is offered for this class")
 
     def get_objects(self, c, n):
         return true_objects(c, n)
